@@ -22,9 +22,11 @@ ASSUMPTIONS = ["runpp is an oracle for the end-to-end part (its convergence is n
                "pandas DataFrame.merge(inner, on=[id, step]) keeps the order of the left (table) rows; dict(zip()) keeps the last value per key "
                "(both tied by the exact correspondence run)",
                "second tap changer (tap2_*) columns are not generated"]
-TRUSTED = ["python re-implementation of the guard G31 used only to classify an observed violation",
-           "construction of the 'private characteristic' and 'explicit values' twin nets in harness/props/c31.py"]
-KIND = "C31-lookup-keyed-by-id-only"
+TRUSTED = ["construction of the 'private characteristic' and 'explicit values' twin nets in harness/props/c31.py"]
+# The defect "lookup keyed by id only" (C31-lookup-keyed-by-id-only) was repaired in /repo (fix: key the lookup by (id, step));
+# every violation is therefore unclassified ("spec").  G31 (the guard of the old behaviour) is only kept as a histogram key:
+# G31_False counts the nets on which the old code failed.
+KIND = "spec"
 VK3 = ["vk_hv_percent", "vkr_hv_percent", "vk_mv_percent", "vkr_mv_percent", "vk_lv_percent", "vkr_lv_percent"]
 TABCOLS = ["id_characteristic", "step", "voltage_ratio", "angle_deg", "vk_percent", "vkr_percent"] + VK3
 
@@ -83,12 +85,22 @@ def _rand_row(rng, k, s):
             rng.randint(40, 48) / 4, rng.randint(2, 4) / 8]
 
 
+_EMPTY = []
+
+
+def empty_net():
+    """pp.create_empty_network() costs 0.2-0.3 s; a deep copy of one instance 15 ms"""
+    if not _EMPTY:
+        _EMPTY.append(pp.create_empty_network())
+    return copy.deepcopy(_EMPTY[0])
+
+
 def build(desc, table=None, t2=None, t3=None):
     """net from a description (optionally with substituted table / transformer lists)"""
     table = desc["table"] if table is None else table
     t2 = desc["t2"] if t2 is None else t2
     t3 = desc["t3"] if t3 is None else t3
-    net = pp.create_empty_network()
+    net = empty_net()
     hv = pp.create_bus(net, 110.0)
     pp.create_ext_grid(net, hv, vm_pu=desc.get("vm", 1.0))
     last_mv = None
@@ -206,7 +218,12 @@ def impl_observe(desc):
         fresh()
         if len(net.trafo3w) == 0:
             return []
-        tdf = _trafo_df_from_trafo3w(net)
+        try:
+            tdf = _trafo_df_from_trafo3w(net)
+        except UserWarning as e:
+            if "zero impedance" in str(e):    # raised by the 3W vk conversion (all vk looked up as the default 1), not by the tap code
+                return "skip"
+            raise
         fresh()   # _trafo_df_from_trafo3w looked vk up in place; the tap arrays in tdf are copies
         a, b_, c = _calc_tap_from_dataframe(net, tdf)
         return [[float(x), float(y), float(z)] for x, y, z in zip(a, b_, c)]
@@ -371,7 +388,7 @@ def oracle(ctx, desc):
     base = run_pf(build(desc), cva)
     tb, t2, t3 = private_twin(desc)
     priv = run_pf(build(desc, tb, t2, t3), cva)
-    kind = "spec" if G31(desc) else KIND
+    kind = KIND
     d = res_diff(base, priv)
     if d is not None:
         ctx.violation(kind, "shared characteristic table vs private copy per transformer: " + d, desc)
@@ -395,7 +412,7 @@ def oracle(ctx, desc):
 def _one(ctx, desc, terms, pend, sample=False):
     obs, ppc_tap, conv = impl_observe(desc)
     terms.append(model_terms(desc))
-    pend.append((desc, obs, ppc_tap))
+    pend.append((desc, obs, ppc_tap if conv else None))
     ctx.case(desc, nontrivial=shares(desc), sample=({"input": desc, "impl": fl(obs)} if sample else None))
     ctx.count("G31_%s" % G31(desc))
     ctx.count("n_dep_%d" % sum(1 for t in desc["t2"] + desc["t3"] if t["dep"]))
@@ -411,6 +428,9 @@ def _compare(ctx, pend, model):
         ctx.corr_checked += 1
         names = ["_calc_tap_from_dataframe(2W)", "_calc_tap_from_dataframe(3W)", "_get_vk_values_from_table(2W)", "_get_vk_values_from_table(3W)"]
         for nm, o, m in zip(names, obs, mod):
+            if isinstance(o, str) and o == "skip":
+                ctx.count("tap3_skipped_zero_impedance")
+                continue
             if not close(o, fl(m)):
                 ctx.disagreement("%s: impl=%s model=%s" % (nm, json.dumps(o, default=str)[:300], json.dumps(fl(m), default=str)[:300]), desc)
                 break
@@ -437,7 +457,7 @@ def run(ctx):
         desc = json.load(open(f))["desc"]
         _one(ctx, desc, terms, pend, sample=True)
         ctx.count("corpus")
-    for k in range(ctx.n(160, 2500)):
+    for k in range(ctx.n(130, 2000)):
         desc = gen_desc(rng, small=(k % 10 == 0))
         _one(ctx, desc, terms, pend, sample=(k < 2))
     model = ctx.coq_eval("c31", "Base.QN C31.Model", terms, shard=60)
